@@ -185,3 +185,21 @@ CONSENSUS = '\n'.join([
     's Exit Fast Running Stable Valid',
     'w Bandwidth=200',
 ])
+
+
+def admissible_prefixes(depth, ncirc=2, nstream=2):
+    """all event-number sequences of the given length that the model admits from the empty state"""
+    out = []
+
+    def rec(prefix):
+        if len(prefix) == depth:
+            out.append(list(prefix))
+            return
+        m = TorModel(ncirc, nstream)
+        for e in prefix:
+            m.apply(e)
+        for e in range(m.nevents()):
+            if m.enabled(e):
+                rec(prefix + [e])
+    rec([])
+    return out
